@@ -14,10 +14,12 @@ import (
 	"verif/internal/loginpeer"
 	rc "verif/internal/refcodec"
 	"verif/internal/vh"
+
+	"github.com/SAP/go-dblib/tds"
 )
 
 func TestMain(m *testing.M) {
-	vh.Rule("rapid: default (ENCRYPT4) login configurations against the scripted peer: passwords of arbitrary bytes, length 0..key capacity (incl. passwords equal to / substrings of user, host, app name, '512', the program name), 0..3 remote servers with own passwords, nonces 1..64 bytes, RSA 1024/1536/2048, packet sizes announced by the server 256..4096. Oracles: (1) the login record's password slot (offset 62, 30+1 bytes) is all zero; (2) non-interference: a second login identical except for same-length passwords produces byte-identical traffic outside the LONGBINARY ciphertexts located by the independent decoder; (3) a password >= 6 bytes that is not a substring of another configured field occurs in no written byte and in no error text of failing logins; (4) the peer decrypts (RSA-OAEP/SHA-1, empty label) every ciphertext to nonce||secret: account password (LOGPWD3 and first REMPWD3 entry), each remote password, a 32-byte session key; (5) freshness: no two ciphertexts of a login are equal (the account password is sent twice, remote passwords may equal the account's or each other's), session keys of the two logins differ; the same for 2..8 logins running concurrently; (6) control: in the plain flow the password IS in the slot. Non-trivial: password length >= 1; distinct by (password, config)")
+	vh.Rule("rapid: default (ENCRYPT4) login configurations against the scripted peer: passwords of arbitrary bytes, length 0..key capacity (incl. passwords equal to / substrings of user, host, app name, '512', the program name), 0..3 remote servers with own passwords, nonces 1..64 bytes, RSA 1024/1536/2048/3072 (4096 in the thorough tier), remote servers configured from one shared slice in half the cases, packet sizes announced by the server 256..4096. Oracles: (1) the login record's password slot (offset 62, 30+1 bytes) is all zero; (2) non-interference: a second login identical except for same-length passwords produces byte-identical traffic outside the LONGBINARY ciphertexts located by the independent decoder; (3) a password >= 6 bytes that is not a substring of another configured field occurs in no written byte and in no error text of failing logins; (4) the peer decrypts (RSA-OAEP/SHA-1, empty label) every ciphertext to nonce||secret: account password (LOGPWD3 and first REMPWD3 entry), each remote password, a 32-byte session key; (5) freshness: no two ciphertexts of a login are equal (the account password is sent twice, remote passwords may equal the account's or each other's), session keys of the two logins differ; the same for 2..8 logins running concurrently; (6) control: in the plain flow the password IS in the slot. Non-trivial: password length >= 1; distinct by (password, config)")
 	vh.Assume("crypto randomness is not reproducible by seed: the case stores key and nonce, the oracles do not depend on particular random bytes; capability masks are compared semantically (the library writes the mask types in map order)")
 	vh.Main(m, "C09")
 }
@@ -173,6 +175,21 @@ func distinctive(pw []byte, c c09Case) bool {
 
 func runCase(c c09Case) *vh.Failure {
 	s := script(c)
+	// the application keeps its remote servers in one slice (with room to grow) and configures
+	// every login from it: both logins of this case get the very same slice
+	var shared []tds.LoginConfigRemoteServer
+	if len(c.Remotes) > 0 && len(c.Password)%2 == 0 {
+		shared = make([]tds.LoginConfigRemoteServer, 0, len(c.Remotes)+2)
+		for _, r := range c.Remotes {
+			shared = append(shared, tds.LoginConfigRemoteServer{Name: r.Name, Password: string(r.Password)})
+		}
+		vh.Label("remote-servers-from-one-shared-slice")
+	}
+	cfg := func(c c09Case, pw []byte) loginpeer.Config {
+		l := cfg(c, pw)
+		l.RemoteList = shared
+		return l
+	}
 	res := loginpeer.Run(cfg(c, c.Password), s, 2*time.Second)
 	if c.Reject == "" && loginpeer.Patient(res) {
 		// a valid login that failed by the deadline alone: the machine is busy - once more, patiently
@@ -399,7 +416,10 @@ func genCase(rt *rapid.T) c09Case {
 		Host: rapid.StringMatching(`[a-z0-9.-]{1,20}`).Draw(rt, "host"),
 		App:  rapid.StringMatching(`[a-zA-Z /.]{1,24}`).Draw(rt, "app"),
 	}
-	bits := rapid.SampledFrom([]int{1024, 1024, 1024, 1536, 2048}).Draw(rt, "bits")
+	bits := rapid.SampledFrom([]int{1024, 1024, 1024, 1024, 1536, 1536, 2048, 2048, 3072}).Draw(rt, "bits")
+	if vh.Thorough() && bits == 3072 && rapid.Bool().Draw(rt, "4096") {
+		bits = 4096
+	}
 	c.Key = loginpeer.PoolKey(bits, rapid.IntRange(0, 1).Draw(rt, "keyidx"))
 	if rapid.IntRange(0, 4).Draw(rt, "nonceclass") == 0 {
 		// nonce + 32-byte session key fill the OAEP capacity exactly (or nearly)
